@@ -441,6 +441,45 @@ def gen_exports_shapes(rng, tier):
     return cases
 
 
+def gen_exports_big(rng, tier):
+    """An export directory with 65536 / 65537 names (all name entries point at one string, the ordinal table is all
+    zeros): table lengths at the 16-bit boundary, through the format-specific iterators and the wrapper twins of
+    wrap/exports.rs (whose hand-written ranges must not narrow the count)."""
+    import struct
+    from .pe import PE, Section
+    from .gen_img import img_line
+    cases = []
+    for bits, nnm in ((32, 0x10000), (64, 0x10001)) if tier == "quick" else ((32, 0x10000), (64, 0x10000), (32, 0x10001), (64, 0x10001), (32, 0xFFFF)):
+        va = 0x1000
+        o_dir, o_fn, o_nm = 0, 40, 48
+        o_or = o_nm + 4 * nnm
+        o_str = o_or + 2 * nnm
+        blob = bytearray(o_str + 16)
+        blob[o_str:o_str + 2] = b"A\0"
+        blob[o_str + 2:o_str + 8] = b"d.dll\0"
+        struct.pack_into("<IIHHIIIIIII", blob, 0, 0, 0x5F000000, 0, 0, va + o_str + 2, 1, 2, nnm, va + o_fn, va + o_nm, va + o_or)
+        struct.pack_into("<II", blob, o_fn, 0x2000, 0x2004)
+        for i in range(nnm):
+            struct.pack_into("<I", blob, o_nm + 4 * i, va + o_str)
+        size = (len(blob) + 0x1FF) & ~0x1FF
+        blob += bytes(size - len(blob))
+        pe = PE(bits)
+        pe.file_align, pe.section_align = 0x200, 0x1000
+        pe.sections = [Section(name=b".edata", va=va, vs=size, prd=0x400, rs=size, chars=0x40000040, data=bytes(blob))]
+        pe.dirs[0] = (va, o_str + 16)
+        data = pe.build()
+        kf = "f%d" % bits
+        case = [img_line(rng, data, 0, "e"), "from_bytes " + kf, "from_bytes wf"]
+        for k, pre in ((kf, ""), ("wf", "w")):
+            for so in ("exp_indices", "exp_names", "exports"):
+                for h in ("count", "len,nth:0xfffe,next,next,next,count", "nth:0xffff,next,hint", "hint,next,hint"):
+                    case.append("iter %s %s%s %s" % (k, pre, so, h))
+        case += ["export %s name 41" % kf, "export wf name 41", "export %s hint 65535" % kf, "export wf hint 65535",
+                 "export %s hint 65536" % kf, "export wf hint 65536", "export %s name_lookup 0" % kf, "export wf name_lookup 0"]
+        cases.append(case)
+    return cases
+
+
 def parse_names(data):
     """names of a well-formed file's export directory (corpus only; used to pick queries)"""
     try:
